@@ -2,6 +2,7 @@
 options.
 """
 
+import codecs
 import os
 import typing
 import typing as t
@@ -1608,7 +1609,17 @@ class TemplateStream:
 
         try:
             if encoding is not None:
-                iterable = (x.encode(encoding, errors) for x in self)  # type: ignore
+                # One incremental encoder for the whole stream: encoding each
+                # item on its own would repeat a byte order mark per item.
+                encoder = codecs.getincrementalencoder(encoding)(errors)
+
+                def encode_stream() -> t.Iterator[bytes]:
+                    for x in self:
+                        yield encoder.encode(x)
+
+                    yield encoder.encode("", final=True)
+
+                iterable = encode_stream()  # type: ignore
             else:
                 iterable = self  # type: ignore
 
